@@ -156,9 +156,19 @@ func (r *c03Run) step(ev string) bool {
 		}
 		return true
 	case "finish-genuine-begin":
-		if cn.verified || cn.split != nil || pending == nil {
+		if cn.verified || cn.split != nil {
 			cn.pending = pending // not enabled: nothing is sent, the model state is unchanged
 			return true
+		}
+		if pending == nil { // no accepted start directly before: make one, so that the symbol is a complete "verify, first half"
+			v := refctl.NewVerify(refctl.Seed32(fmt.Sprintf("%s:eph:%d", cn.name, r.seq)))
+			cn.lastM1 = refctl.VerifyM1(v.EphPub)
+			sm, serr := post(cn.lastM1)
+			if _, isErr, _ := c03Class(sm, serr); isErr || v.ParseM2(sm.Body, r.b.AccLTPK) != nil {
+				return true // the start was rejected (e.g. after an earlier rejected message): nothing to split
+			}
+			cn.prev, cn.last = cn.last, v
+			pending = v
 		}
 		isFinish = true
 		body := pending.M3(idL)
@@ -439,7 +449,7 @@ func c03Run1(c *fw.Ctx) {
 		n = 16 // quick: the first 16 symbols (simplest first) …
 	}
 	// … plus the two degenerate-entity symbols
-	alpha := append(append([]string{}, c03Alphabet[:n]...), c03Alphabet[len(c03Alphabet)-2:]...)
+	alpha := append(append([]string{}, c03Alphabet[:n]...), "X:finish-naming-keyless-entity", "X:finish-naming-shortkey-entity", "L:finish-genuine-begin", "L:finish-genuine-end")
 	if c.Thorough() {
 		alpha = c03Alphabet
 	}
@@ -484,7 +494,7 @@ func init() {
 	fw.Register(&fw.Check{
 		ID:    "C03",
 		Level: "model_checking",
-		Rule:  "every history of length ≤3 (quick, 18 symbols) / ≤4 (thorough, 24 symbols) over the pair-verify alphabet on an adversary connection X and a legitimate connection L (start valid / 31 / 33 / 0-byte key / all-zero point; finish genuine, signed by X naming L, unknown name, naming the accessory, sealed under zero / wrong key, 0 and 15 byte payloads, tag flipped, L's captured finish replayed, L's signature over reordered or stale material, naming a stored entity that has no key / a 5-byte key; unknown state; unknown method; reopen; L's start replayed by X; L's genuine finish split with Expect: 100-continue so that its handler overlaps with later events) against the real transport over TCP; each node is replayed on a fresh system; after every event the response is compared with the reference model (verified ⇔ genuine finish by L directly after an accepted start, computed by the independent controller), and at the end of every history each connection is probed destructively: an unverified one must answer plaintext, refuse protected reads and not serve ciphertext under its own exchange keys; a verified one must serve encrypted requests. The same alphabet (all 27 symbols) is also explored to depth 2 (thorough 3) from two non-initial states: L already verified on its connection, and L verified once and then removed by an administrator through /pairings (its genuine finish must then be refused). states = tree nodes, distinct_nontrivial = distinct (event → response class) pairs",
+		Rule:  "every history of length ≤3 (quick, 20 symbols) / ≤4 (thorough, 27 symbols) over the pair-verify alphabet on an adversary connection X and a legitimate connection L (start valid / 31 / 33 / 0-byte key / all-zero point; finish genuine, signed by X naming L, unknown name, naming the accessory, sealed under zero / wrong key, 0 and 15 byte payloads, tag flipped, L's captured finish replayed, L's signature over reordered or stale material, naming a stored entity that has no key / a 5-byte key; unknown state; unknown method; reopen; L's start replayed by X; L's genuine finish split with Expect: 100-continue so that its handler overlaps with later events) against the real transport over TCP; each node is replayed on a fresh system; after every event the response is compared with the reference model (verified ⇔ genuine finish by L directly after an accepted start, computed by the independent controller), and at the end of every history each connection is probed destructively: an unverified one must answer plaintext, refuse protected reads and not serve ciphertext under its own exchange keys; a verified one must serve encrypted requests. The same alphabet (all 27 symbols) is also explored to depth 2 (thorough 3) from two non-initial states: L already verified on its connection, and L verified once and then removed by an administrator through /pairings (its genuine finish must then be refused). states = tree nodes, distinct_nontrivial = distinct (event → response class) pairs",
 		Run:   c03Run1,
 		Replay: func(c *fw.Ctx, raw json.RawMessage) {
 			var cas c03Case
